@@ -42,6 +42,7 @@ type JwsSpec struct {
 	SignWith string // req | other | cert | forge (the key of the forged certificate, revoke with Payload=forged)
 	JwkOf    string // req | cert | rsa1024 | fresh | invalid
 	JwkAlg   string // "alg" member put inside the embedded jwk
+	JwkKid   string // "kid" member put inside the embedded jwk: "" none | self (its own thumbprint) | victim (the thumbprint of the key of the owner account Own, or of world account 0) | deact (… of a freshly deactivated account) | arb
 	Alg      string // protected alg ("" = natural algorithm of the signing key)
 	SignAlg  string // algorithm used to compute the signature ("" = Alg; "-" = empty signature)
 	Kid      string // loc | otherprov | garbage | ownerloc | noprefix
